@@ -25,6 +25,7 @@ BASE_FLAGS = ["-Zmiri-tree-borrows", "-Zmiri-permissive-provenance", "-Zmiri-ign
 
 def miri(flags, argv, timeout):
     env = dict(os.environ)
+    env.pop("RUSTC_WRAPPER", None)  # cargo-miri installs its own; Miri interprets MIR, LLVM passes do not apply
     env["CARGO_NET_OFFLINE"] = "true"
     env["MIRIFLAGS"] = " ".join(BASE_FLAGS + flags)
     cmd = ["cargo", "+nightly", "miri", "run", "--offline", "-q", "-p", "miri_drv", "--target-dir", TARGET, "--"] + [str(a) for a in argv]
@@ -149,6 +150,7 @@ def replay(path):
 
 def setup():
     env = dict(os.environ)
+    env.pop("RUSTC_WRAPPER", None)
     env["CARGO_NET_OFFLINE"] = "true"
     p = subprocess.run(["cargo", "+nightly", "miri", "setup"], cwd=SIM, env=env, stdout=subprocess.PIPE, stderr=subprocess.STDOUT, text=True)
     print(p.stdout[-1500:])
